@@ -42,7 +42,7 @@ def run_one(hid):
         det = {}
         for p in PROPS:
             rc, out = sh(f"./check {p}", cwd=VERIF, env=env2, timeout=1800)
-            lines = [l[:400] for l in out.splitlines() if l.startswith(("VIOLATION", "UNDECIDED", "CHECKER-ERROR"))]
+            lines = [l[:400] for l in out.splitlines() if l.startswith(("VIOLATION", "UNDECIDED", "CHECKER-ERROR", "BOUNDED-STAND-IN"))]
             det[p] = {"exit": rc, "lines": lines[:6]}
             if rc == 1:
                 obl = []
